@@ -161,7 +161,24 @@ def shrink_candidates(inp):
         for k in kinds:
             nb = dict(b, ops=[o for o in b["ops"] if o["kind"] != k])
             out.append(dict(inp, blocks=blocks[:bi] + [nb] + blocks[bi + 1:]))
-    return out
+    return out[:24]
+
+
+def model_search(chk):
+    """Targeted histories for the sites whose mechanism flag the theorems need (used when an obligation or the
+    correspondence broke and the generated run did not diverge): many-contract sudo edits, EVM calls creating
+    several accounts and slots in one commit, dense oracle rounds; each also in a separate process."""
+    sudo = {"t": "diff", "child": True, "blocks": [
+        {"dt": 5, "ops": [{"kind": "sudo", "a": 1, "b": 0, "c": 0, "l": [6 * b + j for j in range(6)]}]} for b in range(3)] + [
+        {"dt": 5, "ops": [{"kind": "sudo", "a": 0, "b": 0, "c": 0, "l": [1, 7, 13]}]}]}
+    evmh = {"t": "diff", "child": True, "blocks": [
+        {"dt": 5, "ops": [{"kind": "deploy", "a": 0, "b": 5, "c": 4}, {"kind": "deploy", "a": 1, "b": 3, "c": 3}]}] + [
+        {"dt": 5, "ops": [{"kind": "call", "a": 10 + b, "b": b % 2, "c": 16 * (5000 + 10 * b)},
+                          {"kind": "multisend", "a": 1, "b": 0, "c": 3, "l": [70000 + 4 * b + j for j in range(4)]}]} for b in range(4)]}
+    orc = {"t": "diff", "child": True, "blocks": [
+        {"dt": 5, "ops": [{"kind": "oracle", "a": v, "b": 0, "c": 0, "l": [100 + (3 * b + v) % 7, 110 + (b + 2 * v) % 5, 0 if (b + v) % 4 == 0 else 105]}
+                          for v in range(3)] + [{"kind": "delegate", "a": b % 4, "b": b % 3, "c": 1}]} for b in range(13)]}
+    return [sudo, evmh, orc]
 
 
 MANIFEST = {
